@@ -23,7 +23,8 @@ from ..cfg import must_facts, holds
 from ..rules import callers_of, references_to, event_facts, node_calls, node_assigns, is_true, is_false, is_none
 from ..mutate import mutate, remove_stmts, replace_expr, replace_stmt, parse_stmt, parse_expr
 from ..model import AnalysisError
-from ..x_sync import own_walk, own_find, node_counts, method_call_on, exit_states, guard_models
+from .. import x_tdeval as tdeval
+from ..x_sync import check_none_tests, own_walk, own_find, node_counts, method_call_on, exit_states, guard_models
 
 TECHNIQUE = "who-may-call lint, guard dominance, exit-state typestate, finite-domain abstract evaluation (exact rationals) of _update_next's AST"
 EXPLANATION = (
@@ -164,116 +165,10 @@ def check_start_stop(ck):
     init = ck.func(IO, PC + ".__init__")
     ok = any(q.is_const(getattr(st, "value", None), False) for st in q.stores_to(init.node, RUNNING)) and any(q.is_const(getattr(st, "value", None), None) for st in q.stores_to(init.node, TIMEOUT))
     ck.ob("C39.stop", init, init.node, ok, "a new PeriodicCallback is not running and has no timer", construct="initial state")
-    # period validated
-    facts = must_facts(init.cfg)
-    rs = [nd for nd in init.cfg.stmt_nodes(lambda nd: nd.kind == "stmt" and isinstance(nd.ast, ast.Raise))]
-    ok = any(all(v <= 0 for (v,) in guard_models(facts[nd.id], ["callback_time"], range(-2, 3))) and guard_models(facts[nd.id], ["callback_time"], range(-2, 3)) for nd in rs)
-    ck.ob("C39.stop", init, init.node, ok, "a non-positive numeric period is rejected", construct="rejects period <= 0")
 
 
 # ---------------------------------------------------------------------------
 # finite-domain abstract evaluation of _update_next
-
-
-class _Unsupported(Exception):
-    pass
-
-
-def _ev(e, env):
-    if isinstance(e, ast.Constant):
-        v = e.value
-        if isinstance(v, bool) or v is None:
-            return v
-        if isinstance(v, int):
-            return Fraction(v)
-        if isinstance(v, float):
-            return Fraction(v)  # exact value of the literal (1000.0 -> 1000)
-        raise _Unsupported("constant %r" % (v,))
-    d = q.dotted(e) if isinstance(e, (ast.Name, ast.Attribute)) else None
-    if d is not None:
-        if d in env:
-            return env[d]
-        raise _Unsupported("name %s" % d)
-    if isinstance(e, ast.BinOp):
-        a, b = _ev(e.left, env), _ev(e.right, env)
-        if isinstance(e.op, ast.Add):
-            return a + b
-        if isinstance(e.op, ast.Sub):
-            return a - b
-        if isinstance(e.op, ast.Mult):
-            return a * b
-        if isinstance(e.op, ast.Div):
-            return a / b
-        if isinstance(e.op, ast.FloorDiv):
-            return Fraction(math.floor(a / b))
-        if isinstance(e.op, ast.Mod):
-            return a - b * math.floor(a / b)
-        raise _Unsupported("operator %s" % type(e.op).__name__)
-    if isinstance(e, ast.UnaryOp):
-        v = _ev(e.operand, env)
-        if isinstance(e.op, ast.USub):
-            return -v
-        if isinstance(e.op, ast.UAdd):
-            return v
-        if isinstance(e.op, ast.Not):
-            return not v
-    if isinstance(e, ast.Compare) and len(e.ops) == 1:
-        a, b = _ev(e.left, env), _ev(e.comparators[0], env)
-        op = e.ops[0]
-        table = {ast.Lt: a < b if not isinstance(op, (ast.Is, ast.IsNot)) else None}
-        if isinstance(op, ast.Lt):
-            return a < b
-        if isinstance(op, ast.LtE):
-            return a <= b
-        if isinstance(op, ast.Gt):
-            return a > b
-        if isinstance(op, ast.GtE):
-            return a >= b
-        if isinstance(op, ast.Eq):
-            return a == b
-        if isinstance(op, ast.NotEq):
-            return a != b
-        raise _Unsupported("comparison %s" % type(op).__name__)
-    if isinstance(e, ast.BoolOp):
-        vals = [_ev(v, env) for v in e.values]
-        return all(vals) if isinstance(e.op, ast.And) else any(vals)
-    if isinstance(e, ast.Call) and not e.keywords and len(e.args) == 1:
-        fn = q.dotted(e.func)
-        v = _ev(e.args[0], env)
-        if fn == "math.floor":
-            return Fraction(math.floor(v))
-        if fn == "math.ceil":
-            return Fraction(math.ceil(v))
-        if fn == "int":
-            return Fraction(math.trunc(v))
-        if fn in ("float", "abs") and fn == "float":
-            return v
-        if fn == "round":
-            return Fraction(round(v))
-    raise _Unsupported(q.unparse(e)[:60])
-
-
-def _exec(stmts, env):
-    for st in stmts:
-        if isinstance(st, ast.Expr) and isinstance(st.value, ast.Constant):
-            continue
-        if isinstance(st, (ast.Assign, ast.AnnAssign)):
-            tg = st.targets[0] if isinstance(st, ast.Assign) else st.target
-            d = q.dotted(tg)
-            if d is None or (isinstance(st, ast.Assign) and len(st.targets) != 1):
-                raise _Unsupported("assignment target")
-            env[d] = _ev(st.value, env)
-        elif isinstance(st, ast.AugAssign):
-            d = q.dotted(st.target)
-            if d is None:
-                raise _Unsupported("augmented target")
-            env[d] = _ev(ast.BinOp(left=st.target, op=st.op, right=st.value), env)
-        elif isinstance(st, ast.If):
-            _exec(st.body if _ev(st.test, env) else st.orelse, env)
-        elif isinstance(st, ast.Pass):
-            pass
-        else:
-            raise _Unsupported("statement %s" % type(st).__name__)
 
 
 PERIODS_MS = (Fraction(250), Fraction(500), Fraction(1000), Fraction(1500), Fraction(1, 1000))
@@ -301,11 +196,12 @@ def check_update_next(ck):
                 now = old + dl * p if pms >= 1 else old + dl * p
                 env = {"self.callback_time": pms, "self.jitter": Fraction(0), NEXT: old, cparam[0]: now}
                 try:
-                    _exec(fi.node.body, env)
-                except _Unsupported as e:
+                    tdeval.run(fi.node.body, env)
+                except tdeval.Unsupported as e:
                     raise AnalysisError("%s: _update_next uses a construct the evaluator does not model: %s" % (fi.site(), e))
-                except ZeroDivisionError:
-                    raise AnalysisError("%s: division by zero while evaluating _update_next" % fi.site())
+                except tdeval.Raised as e:
+                    bad["later"].append("(period=%ss prev=%s now=%s raises %s)" % (p, old, now, e.name))
+                    continue
                 new = env[NEXT]
                 n += 1
                 sample = "(period=%ss prev=%s now=prev%+.3gp -> %s)" % (p, old, float(dl), new)
@@ -335,17 +231,80 @@ def check_update_next(ck):
         ck.ob("C39.grid", fi, c, holds(facts[nd.id], "self.jitter", True), "randomness enters only when jitter is requested")
 
 
+def check_period(ck):
+    """__init__: the stored period is the caller's period in milliseconds, for numbers and for
+    timedeltas of any length (evaluated with an abstract timedelta: days/seconds/microseconds as in CPython)."""
+    fi = ck.func(IO, PC + ".__init__")
+    ps = [x for x in fi.params() if x != "self"]
+    if len(ps) < 2:
+        raise AnalysisError("%s: unexpected signature" % fi.site())
+    cb, ct = ps[0], ps[1]
+    base = {p_: None for p_ in ps}
+    for a, d in zip(reversed(fi.node.args.args), reversed(fi.node.args.defaults)):
+        if isinstance(d, ast.Constant) and isinstance(d.value, (int, float)):
+            base[a.arg] = Fraction(d.value)
+    samples = [("number", Fraction(v)) for v in (Fraction(1, 1000), 1, 250, 1000, 86400000 * 2)] + \
+              [("timedelta", tdeval.TD(v)) for v in (Fraction(1, 10 ** 6), Fraction(1, 4), 1, 90, 3600, 86399, 86400, 93600, 129600, 7 * 86400, 86400 * 30 + Fraction(5, 2))]
+    bad = []
+    n = 0
+    for kind, v in samples:
+        env = dict(base)
+        env[ct] = v
+        want = v if kind == "number" else v.s * 1000
+        try:
+            tdeval.run(fi.node.body, env)
+        except tdeval.Unsupported as e:
+            raise AnalysisError("%s: __init__ uses a construct the evaluator does not model: %s" % (fi.site(), e))
+        except tdeval.Raised as e:
+            bad.append("%s %s -> raises %s" % (kind, v, e.name))
+            n += 1
+            continue
+        except tdeval.Returned:
+            pass
+        got = env.get("self.callback_time")
+        n += 1
+        if got != want:
+            bad.append("%s %s -> stored %s ms, expected %s ms" % (kind, v, got, want))
+    ck.ob("C39.period", fi, fi.node, not bad, "the stored period equals the caller's period in milliseconds for numeric periods and for timedeltas from 1 microsecond to 30 days (%d samples%s)" % (n, ("; wrong: " + "; ".join(bad[:3])) if bad else ""),
+          construct="period conversion mismatches=%d" % len(bad))
+    rej = []
+    for v in (Fraction(0), Fraction(-5)):
+        env = dict(base)
+        env[ct] = v
+        try:
+            tdeval.run(fi.node.body, env)
+            rej.append("%s accepted" % v)
+        except tdeval.Raised as e:
+            if e.name != "ValueError":
+                rej.append("%s raises %s" % (v, e.name))
+        except tdeval.Unsupported as e:
+            raise AnalysisError("%s: %s" % (fi.site(), e))
+    ck.ob("C39.period", fi, fi.node, not rej, "a non-positive numeric period is rejected with ValueError%s" % (("; " + ", ".join(rej)) if rej else ""), construct="non-positive rejected=%s" % (not rej))
+    # nobody else rescales the period
+    for f in ck.repo.methods(IO, PC):
+        if f is not fi:
+            for st in q.stores_to(f.node, "self.callback_time"):
+                ck.ob("C39.period", f, st, False, "callback_time is fixed at construction")
+
+
 def run(ck):
     ck.rule("C39.schedule-sites", "_schedule_next is called only from start() and from the finally block of _run (after the callback and its awaitable finished); callback errors are logged and swallowed")
     ck.rule("C39.running", "_run invokes the callback only while _running; _schedule_next arms exactly one timer while _running and none otherwise; _running has no other writers than __init__/start/stop")
     ck.rule("C39.timer", "the timer is add_timeout(_next_timeout, _run), armed after _update_next(now), its handle kept in _timeout")
     ck.rule("C39.stop", "stop() clears _running and removes + forgets a pending timer; start() sets _running and the grid origin before its single _schedule_next(); non-positive periods rejected")
+    ck.rule("C39.period", "__init__ stores the period in milliseconds: numbers unchanged, timedeltas converted with their days included (abstract evaluation over numbers and timedeltas up to 30 days); non-positive numbers rejected")
+    ck.rule("C39.none-test", "the callback's return value is compared with None by identity before it is awaited")
     ck.rule("C39.grid", "_update_next (jitter 0), evaluated with exact rationals on a finite grid: strictly later, whole number of periods, not before now, at most one period ahead / exactly one period on early firing")
 
     check_callers(ck)
     check_guards(ck)
     check_start_stop(ck)
     check_update_next(ck)
+    check_period(ck)
+    run_ = ck.func(IO, PC + "._run")
+    vals = {st.targets[0].id: "return value of the user callback (None or an awaitable, which may be falsy)" for st in own_walk(run_.node)
+            if isinstance(st, ast.Assign) and len(st.targets) == 1 and isinstance(st.targets[0], ast.Name) and isinstance(st.value, ast.Call) and q.dotted(st.value.func) == "self.callback"}
+    check_none_tests(ck, "C39.none-test", run_, extra=vals, only=list(vals))
 
 
 # ---------------------------------------------------------------------------
@@ -391,6 +350,10 @@ def _unguard(root):
 
 
 MUTANTS = [
+    ("timedelta period converted via .seconds (days dropped)", _in("__init__", replace_expr(lambda n: isinstance(n, ast.BinOp) and isinstance(n.op, ast.Div) and "timedelta" in ast.unparse(n.right), lambda n: parse_expr("callback_time.seconds * 1000 + callback_time.microseconds / 1000"))), "C39.period"),
+    ("timedelta period stored in seconds (total_seconds without * 1000)", _in("__init__", replace_expr(lambda n: isinstance(n, ast.BinOp) and isinstance(n.op, ast.Div) and "timedelta" in ast.unparse(n.right), lambda n: parse_expr("callback_time.total_seconds()"))), "C39.period"),
+    ("zero period accepted (<= 0 -> < 0)", _in("__init__", replace_expr(lambda n: isinstance(n, ast.Compare) and isinstance(n.ops[0], ast.LtE), lambda n: ast.Compare(left=n.left, ops=[ast.Lt()], comparators=n.comparators))), "C39.period"),
+    ("awaitable return value tested by truthiness", _in("_run", replace_expr(lambda n: isinstance(n, ast.Compare) and isinstance(n.ops[0], ast.IsNot), lambda n: n.left)), "C39.none-test"),
     ("next run scheduled before the coroutine callback is awaited (runs can overlap)", _in("_run", _schedule_before_await), "C39.schedule-sites"),
     ("re-schedule only after a successful callback (finally -> else)", _in("_run", _finally_to_else), "C39.schedule-sites"),
     ("callback exception propagates out of _run", _in("_run", lambda root: _reraise(root)), "C39.schedule-sites"),
